@@ -289,7 +289,8 @@ def run(ctx):
         B = 1 << w
         sizes = [c.rules, c.tokens, c.prods, (sum(c.long) if c.long else 0), c.chain + 2]
         near = any(B - 6 <= v <= B + 1 for v in sizes) or (c.long and c.kind == "E" and c.implicit and B - 6 <= c.long[0] + 2 * c.long[1] <= B + 2)
-        replay = "echo '%s' | %s" % (c.harness_line(w) if len(c.harness_line(w)) < 3000 else "<%s %d hex(src of case)>" % (c.kind, w), ".work/target/release/c20")
+        replay = ("cd /verif && python3 -c 'from checks.C20 import Case; print(Case(\"%s\", %d, %d, %d, chain=%d, pool=%d, long=%r, implicit=%d)"
+                  ".harness_line(%d))' | .work/target/release/c20" % (c.kind, c.rules, c.tokens, c.prods, c.chain, c.pool, c.long, c.implicit, w))
         base = {"case": c.desc(), "width": w, "impl": line_r[:600], "impl_u32": impl_r[i * 3 + 2][:600], "model": model[k],
                 "replay_cmd": replay, "guards_fixed": GUARDS_FIXED}
         if "true" not in m:
@@ -384,7 +385,10 @@ def run(ctx):
     lex_ns = [253, 254, 255, 256, 257, 258] + ([] if ctx.quick else [65534, 65535, 65536, 65537])
     ll = ["L %d %s" % (w, hx(lex_src(n))) for n in lex_ns for w in WIDTHS]
     lex_r = core.run_lines([exe_r], ll, timeout=3000, env=env)
-    lex_d = core.run_lines([exe_d], ll, timeout=3000, env=env)
+    # debug profile only for the 8-bit-sized lexers (65 k rules: the duplicate-name scan is quadratic)
+    lex_d_small = core.run_lines([exe_d], [l for l, n in zip(ll, [n for n in lex_ns for w in WIDTHS]) if n < 1000], timeout=3000, env=env)
+    it = iter(lex_d_small)
+    lex_d = [next(it) if n < 1000 else None for n in lex_ns for w in WIDTHS]
     lm = core.run_lines([mexe], ["%d %d O 1 1 - 3 3 %d ; 1:0:1" % (1 if GUARDS_FIXED else 0, w, n) for n in lex_ns for w in WIDTHS], timeout=3000)
     nl = 0
     for k, (n, w) in enumerate([(n, w) for n in lex_ns for w in WIDTHS]):
@@ -399,12 +403,12 @@ def run(ctx):
             cls = "Same" if (a == ref and kv.get("n") == str(n) and kv.get("ids_are_positions") == "1") else "Wrapped"
         else:
             cls = "OtherPanic"
-        if a != d:
+        if d is not None and a != d:
             cls = "OtherPanic"
         ctx.count("lex_%s_w%d" % (cls, w))
         ctx.case("L %d w%d" % (n, w), abs(n - (1 << w)) <= 3, dict(base, outcome=cls))
         if cls in ("Wrapped", "OtherPanic"):
-            ctx.violation(dict(base, outcome=cls, why="lexer rule ids wrapped / differ from u32 / debug differs: debug=%s" % d[:200]))
+            ctx.violation(dict(base, outcome=cls, why="lexer rule ids wrapped / differ from u32 / debug differs: debug=%s" % (d or "")[:200]))
         exp_ok = m.get("l") == "PASS"
         mn, mmax, mpos = (m.get("lex", "0,0,0").split(",") + ["", "", ""])[:3]
         if exp_ok:
@@ -433,4 +437,7 @@ def run(ctx):
         "number of states before gc is not observable through the public API: the mirror is fed pre_gc = post_gc = states of the u32 build; an unpredicted 'stategraph' refusal is accepted (counted as pre_gc_refusal)",
         "refusal = panic message containing 'not big enough', or the size assertions of StateGraph::new / StateTable::new, or the lexer's try_from message",
         "usize is 64 bit (C20_cell_roundtrip needs width(usize) >= width(StorageT) + 2)",
+        "the theorems are about reported sizes and indices (the bookkeeping mirror); equality of table CONTENTS and parse results across widths is "
+        "decided by the differential run only (transcript of an accepted u8/u16 build == transcript of the u32 build), not by a theorem",
+        "generated grammars have no weakly-compatible state merges, so their state graph is unique up to renumbering (Pager's merge order follows hash order and could otherwise differ between widths)",
     ]
